@@ -19,6 +19,44 @@ theorem binaryResult_exact (op : BinaryOperator) (l r : Int) (hl : InRange l) (h
     (binaryResult op l r).Returns ∧ (binaryResult op l r).value? = Spec.arith op l r :=
   binaryResult_spec op l r hl hr
 
+/-- ★ "whenever a result is unrepresentable or undefined it reports an error instead of a wrong or wrapped
+    value", for every binary operator in one statement: the call succeeds with `v` exactly when the operation
+    is defined in C, `v` is its mathematically exact result and `v` fits i64; in every other case the call is
+    an error (it is never a panic, never another value). -/
+theorem unrepresentable_is_error (op : BinaryOperator) (l r : Int) (hl : InRange l) (hr : InRange r) :
+    (∀ v, binaryResult op l r = .ok v ↔
+      (Spec.definedOp op l r ∧ Spec.InRange (Spec.exactOp op l r) ∧ v = Spec.exactOp op l r)) ∧
+    ((¬ (Spec.definedOp op l r ∧ Spec.InRange (Spec.exactOp op l r))) → ∃ err, binaryResult op l r = .error err) := by
+  have harith : ∀ v, Spec.arith op l r = some v ↔
+      (Spec.definedOp op l r ∧ Spec.InRange (Spec.exactOp op l r) ∧ v = Spec.exactOp op l r) := by
+    intro v
+    unfold Spec.arith
+    by_cases hc : Spec.definedOp op l r ∧ Spec.InRange (Spec.exactOp op l r)
+    · simp only [hc, and_self, if_true, Option.some.injEq, true_and]
+      exact ⟨fun h => h.symm, fun h => h.symm⟩
+    · simp only [hc, if_false]
+      constructor
+      · intro h; simp at h
+      · intro h; exact absurd ⟨h.1, h.2.1⟩ hc
+  refine ⟨fun v => ?_, fun hn => ?_⟩
+  · rw [← harith v]
+    constructor
+    · intro hok
+      cases ha : Spec.arith op l r with
+      | none =>
+        obtain ⟨err, he⟩ := binaryResult_of_none hl hr ha
+        rw [he] at hok; simp at hok
+      | some w =>
+        have := (binaryResult_of_some hl hr ha).1
+        rw [this] at hok
+        injection hok with hok
+        rw [hok]
+    · intro ha
+      exact (binaryResult_of_some hl hr ha).1
+  · apply binaryResult_of_none hl hr
+    unfold Spec.arith
+    simp only [hn, if_false]
+
 /-- the i64 boundary cases named by the property: `MIN / -1` and `MIN % -1` are errors, not wrapped values -/
 example : (binaryResult .Divide (-9223372036854775808) (-1)).value? = none ∧
     (binaryResult .Remainder (-9223372036854775808) (-1)).value? = none ∧
@@ -378,6 +416,83 @@ theorem text_gets_its_C_value (e : Spec.Expr) (env : Env) (hs : Spec.inScope e =
     | none => ∃ err, evalStr (spell (render e)) env = .evalError err :=
   evalStr_spell_render e env hs h
 
+/-- ☆ the same for EVERY spelling of the tokens: any white space of Rust's `char::is_whitespace` (Unicode
+    included) before, between and after the tokens, none at all where two tokens cannot run together (a term
+    next to an operator, or a parenthesis next to an operator), and any notation of the constants (decimal,
+    `0x`/`0X`, leading-0 octal).  `tokenize_every_spelling` is the tokenizer half. -/
+theorem tokenize_every_spelling (ps : List Piece) (lead : List Char) (f : Nat) (hps : PiecesOK ps)
+    (hlead : ∀ c ∈ lead, isWhitespace c = true) (hf : (lead ++ flatten ps).length < f) :
+    tokenize f (lead ++ flatten ps) = ps.map (·.tok) :=
+  tokenize_pieces ps lead f hps hlead hf
+
+theorem text_gets_its_C_value_every_spelling (e : Spec.Expr) (env : Env) (hs : Spec.inScope e = true)
+    (hl : litsInRange e) (ps : List Piece) (lead : List Char) (hps : PiecesOK ps)
+    (hlead : ∀ c ∈ lead, isWhitespace c = true) (htoks : ps.map (·.tok) = render e) :
+    match Spec.evalExact e env with
+    | some (v, env') => evalStr (lead ++ flatten ps) env = .value v env'
+    | none => ∃ err, evalStr (lead ++ flatten ps) env = .evalError err :=
+  evalStr_pieces e env hs hl ps lead hps hlead htoks
+
+/-- ☆ … and with redundant parentheses: `d x` extra pairs around every subexpression `x` (and around the
+    whole), in addition to the needed ones: every text the harness' tree renderer can produce — minimal or
+    redundant parentheses, any white space or none, any notation of the constants — evaluates to the Spec's
+    value.  `parse_render_redundant` is the parser half. -/
+theorem parse_render_redundant (d : Deco) (e : Spec.Expr) (f : Nat) (hf : 2 * (renderTop d e).length + 2 ≤ f) :
+    parseToks f (renderTop d e) = .ok (rpn e) :=
+  parseToks_renderD d e f hf
+
+theorem text_gets_its_C_value_all_spellings (d : Deco) (e : Spec.Expr) (env : Env)
+    (hs : Spec.inScope e = true) (hl : litsInRange e) (ps : List Piece) (lead : List Char) (hps : PiecesOK ps)
+    (hlead : ∀ c ∈ lead, isWhitespace c = true) (htoks : ps.map (·.tok) = renderTop d e) :
+    match Spec.evalExact e env with
+    | some (v, env') => evalStr (lead ++ flatten ps) env = .value v env'
+    | none => ∃ err, evalStr (lead ++ flatten ps) env = .evalError err :=
+  evalStr_piecesD d e env hs hl ps lead hps hlead htoks
+
+/-- `((a))*(((b+1)))` : two redundant pairs around `a`, two around the needed pair of `b+1` -/
+example :
+    let e : Spec.Expr := .bin .Multiply (.var ['a']) (.bin .Add (.var ['b']) (.num 1))
+    let d : Deco := fun x => if x = .var ['a'] then 2 else if x = .bin .Add (.var ['b']) (.num 1) then 2 else 0
+    renderTop d e = tokenize 100 "((a))*(((b+1)))".toList := by decide +kernel
+
+/-- `x=0x10<<2` without any blank, after a no-break space: a spelling of the tokens of `x = 16 << 2` -/
+example :
+    let e : Spec.Expr := .bin .Assign (.var ['x']) (.bin .ShiftLeft (.num 16) (.num 2))
+    let ps : List Piece :=
+      [⟨.term (.variable ['x']), ['x'], []⟩, ⟨.op .Equal, ['='], []⟩, ⟨.term (.value 16), "0x10".toList, []⟩,
+       ⟨.op .LessLess, "<<".toList, []⟩, ⟨.term (.value 2), ['2'], []⟩]
+    ps.map (·.tok) = render e ∧ flatten ps = "x=0x10<<2".toList ∧ isWhitespace (Char.ofNat 0xA0) = true ∧
+    evalStr (Char.ofNat 0xA0 :: flatten ps) [] = .value 64 [(['x'], ['6', '4'])] := by
+  refine ⟨by decide +kernel, by decide +kernel, by decide, by decide +kernel⟩
+
+/-- ☆ (the range clause of the round-3 seeded change) a numeric constant of an expression is worth exactly
+    what the C literal is worth, and is an ERROR — never a wrapped value — when the literal is malformed or
+    its value does not fit i64: for every term of term characters … -/
+theorem literal_exact_or_error (token : List Char) (hterm : ∀ c ∈ token, isTermChar c = true) :
+    parseConstant token = Spec.constValue token ∧
+    (∀ v, parseConstant token = some v → InRange v) := by
+  refine ⟨parseConstant_eq_spec token hterm, fun v hv => ?_⟩
+  rw [parseConstant_eq_spec token hterm] at hv
+  unfold Spec.constValue at hv
+  exact bind_represent_inRange (f := fun n => (n : Int)) hv
+
+/-- … and at the top: a constant written alone evaluates to its C value or to a token error -/
+theorem literal_alone (c : Char) (t : List Char) (env : Env) (hterm : ∀ ch ∈ c :: t, isTermChar ch = true)
+    (hd : isAsciiDigit c = true) :
+    evalStr (c :: t) env =
+      match Spec.constValue (c :: t) with
+      | some v => .value v env
+      | none => .syntaxError .tokenError :=
+  evalStr_literal c t env hterm hd
+
+/-- `0x7fffffffffffffff` is 2^63-1; `0x8000000000000000` and `9223372036854775808` are errors, not -2^63 -/
+example : Spec.constValue "0x7fffffffffffffff".toList = some 9223372036854775807 ∧
+    Spec.constValue "0x8000000000000000".toList = none ∧ Spec.constValue "9223372036854775808".toList = none ∧
+    evalStr "0x8000000000000000".toList [] = .syntaxError .tokenError ∧
+    Spec.constValue "0xFFFFFFFFFFFFFFFF".toList = none ∧ Spec.constValue "01000000000000000000000".toList = none := by
+  refine ⟨by decide +kernel, by decide +kernel, by decide +kernel, by decide +kernel, by decide +kernel,
+    by decide +kernel⟩
+
 /-- `x = 2 + 3 * b`: the hypotheses hold and this is its text -/
 example :
     let e : Spec.Expr := .bin .Assign (.var ['x']) (.bin .Add (.num 2) (.bin .Multiply (.num 3) (.var ['b'])))
@@ -477,6 +592,30 @@ theorem shell_assign_scope (c r : Ctx) (rs : List Ctx) (n : Name) (v : List Char
     (∀ w, c.find n = some w → cs' = c.put n ⟨.scalar v, false⟩ :: r :: rs ∧ w.readOnly = false) :=
   assign_scope c r rs n v cs' h
 
+/-- ★ (the clause the round-2 seeded change broke, at the level of what the driver runs) in the scenario
+    "function with `typeset` locals, then the expansions, then print every name inside, return, print
+    again": the lines the model prints are the values, the names as the function sees them at its end, and
+    the names as the caller sees them after the function's context is popped — and for every name the function
+    did not declare the two are EQUAL, whatever the expressions were (any assignment, `++`, `op=`, nested
+    `$((…))` …): an assignment inside a function to a name that is not local there is seen by the caller. -/
+theorem function_assignment_reaches_caller (names : List Name) (sc : Scenario) (vals : List (List Char × Nat))
+    (st1 : Store) (hk : sc.kind = .fn)
+    (h : runBody (pushLocals { ctxs := [sc.globals], nounset := sc.nounset, portable := sc.portable } sc.locals)
+      sc.exprs = (vals, .ok st1)) :
+    (runScenario names sc).lines = vals.map .value ++ printAll names st1 ++ printAll names (popCtx st1) ∧
+    (runScenario names sc).final = some (baseCtx (popCtx st1)) ∧
+    ∀ x, sc.locals.find x = none → showVisible st1 x = showVisible (popCtx st1) x := by
+  refine ⟨?_, ?_, fun x hx => fn_sees_what_caller_sees _ sc.locals sc.exprs x vals st1 (by simp) hx h⟩
+  · unfold runScenario; simp only [hk, h]
+  · unfold runScenario; simp only [hk, h]
+
+/-- `n += 1` in a function without a local `n`: inside and after return `n` is 2 -/
+example :
+    (runBody (pushLocals { ctxs := [[(['n'], ⟨.scalar ['1'], false⟩)]], nounset := false, portable := false } [])
+      [" n += 1 ".toList]).2.toOption.map
+      (fun st => (showVisible st ['n'], showVisible (popCtx st) ['n'])) = some ([['2']], [['2']]) := by
+  decide +kernel
+
 /-- a read-only target makes the assignment (hence the expansion) fail -/
 theorem shell_assign_readonly (c : Ctx) (rest : List Ctx) (n : Name) (v : List Char) (w : SVar)
     (hw : c.find n = some w) (hro : w.readOnly = true) : assignVisibleOrGlobal (c :: rest) n v = none :=
@@ -485,6 +624,34 @@ theorem shell_assign_readonly (c : Ctx) (rest : List Ctx) (n : Name) (v : List C
 /-- `n += 1` in a function without a local `n`, global `n=1`: the function's context stays empty, the global is 2 -/
 example : assignVisibleOrGlobal [[], [(['n'], ⟨.scalar ['1'], false⟩)]] ['n'] ['2']
     = some [[], [(['n'], ⟨.scalar ['2'], false⟩)]] := by decide
+
+/-- ★ "`$((x))` and `$(($x))` agree", end to end at `yash_arith::eval`: if the value text `c` of the variable
+    `x` is an integer constant worth `v`, then evaluating the text `x` and evaluating the text `c` (what `$x`
+    puts there) both give `v` and leave the variables alone. -/
+theorem variable_and_its_text_agree (x : Name) (c : Char) (t : List Char) (v : Int) (env : Env)
+    (hx : x ≠ [] ∧ (∀ ch ∈ x, isTermChar ch = true) ∧ (∀ a, x.head? = some a → isAsciiDigit a = false))
+    (hterm : ∀ ch ∈ c :: t, isTermChar ch = true) (hd : isAsciiDigit c = true)
+    (hv : Spec.constValue (c :: t) = some v) (henv : env.get x = some (c :: t)) :
+    evalStr x env = .value v env ∧ evalStr (c :: t) env = .value v env := by
+  refine ⟨?_, by rw [literal_alone c t env hterm hd, hv]⟩
+  have hsigned : Spec.signedConstValue (c :: t) = some v := by
+    have hc := hterm c (by simp)
+    unfold Spec.signedConstValue
+    split
+    · rename_i heq; injection heq with h1 _; subst h1; exact absurd hc (by decide)
+    · rename_i heq; injection heq with h1 _; subst h1; exact absurd hc (by decide)
+    · exact hv
+  have hread : Spec.evalExact (.var x) env = some (v, env) := by
+    simp only [Spec.evalExact, Spec.readVar, lookup_eq_get, henv, hsigned, Option.map]
+  have := text_gets_its_C_value_every_spelling (.var x) env rfl trivial
+    [⟨.term (.variable x), x, []⟩] [] ⟨⟨rfl, hx⟩, by simp, fun _ => trivial, trivial⟩ (by simp) rfl
+  rw [hread] at this
+  simpa [flatten] using this
+
+/-- `x=0x1F`: the texts `x` and `0x1F` are both 31 -/
+example : evalStr ['x'] [(['x'], "0x1F".toList)] = .value 31 [(['x'], "0x1F".toList)] ∧
+    evalStr "0x1F".toList [(['x'], "0x1F".toList)] = .value 31 [(['x'], "0x1F".toList)] := by
+  refine ⟨by decide +kernel, by decide +kernel⟩
 
 /-- the two witnesses that failed before the fix: `x=010` is 8, `x=0x10` is 16 -/
 example : expandVariable ['x'] [(['x'], "010".toList)] = .ok 8 ∧
